@@ -6,6 +6,7 @@
 #include <asam_cmp/tecmp_payload.h>
 
 #include "../common/lib.h"
+#include "../common/views.h"
 
 using namespace vf;
 
@@ -329,12 +330,38 @@ static PSnap<P> psnap(const P& p)
     return s;
 }
 
+// typed classes: every typed accessor is an observable too.  The views a copy hands out must lie in the copy's own bytes and
+// read the same as the source's did - also after the source was modified or destroyed (a cached pointer that was copied along
+// would still point into the source).  -1: no typed class / the bytes do not validate, nothing is swept.
 template <class P>
-static Verdict runPayload(const Case& c, Info& info, P srcInit, P dstInit)
+static Verdict typedViews(int pcCls, const P& p, uint64_t& digest, const char* when)
+{
+    digest = 0;
+    if constexpr (std::is_base_of_v<lib::Payload, P>)
+    {
+        if (pcCls < 0 || !classValidates(static_cast<uint8_t>(pcCls), p.getRawPayload(), p.getLength()))
+            return Verdict::pass();
+        ViewStats vs;
+        Verdict v = sweepAccessors(static_cast<uint8_t>(pcCls), p, vs);
+        if (!v.ok)
+            return Verdict::fail(std::string(when) + ": " + v.why);
+        digest = vs.digest + vs.views * 1000003u;
+    }
+    else
+        (void) when;
+    return Verdict::pass();
+}
+
+template <class P>
+static Verdict runPayload(const Case& c, Info& info, P srcInit, P dstInit, int pcCls = -1)
 {
     auto srcPtr = std::make_unique<P>(srcInit);
     P& src = *srcPtr;
     auto before = psnap(src);
+    // the accessors are called on the source (and on the target) before the operation: what they may cache is part of the state
+    uint64_t viewsBefore = 0, scratch = 0;
+    VF_TRY(typedViews(pcCls, src, viewsBefore, "source before the operation"));
+    VF_TRY(typedViews(pcCls, dstInit, scratch, "target before the operation"));
     VF_CHECK(src == src, "payload == itself is false (type 0x" << std::hex << before.type << std::dec << ", " << before.bytes.size() << " bytes)");
     P other = c.relation == 1 ? P(src) : dstInit;
     if (c.relation == 2)
@@ -387,20 +414,33 @@ static Verdict runPayload(const Case& c, Info& info, P srcInit, P dstInit)
             break;
     }
     VF_CHECK(psnap(*res) == before, "payload copy / move / assignment result differs from the source");
+    uint64_t viewsAfter = 0;
+    VF_TRY(typedViews(pcCls, *res, viewsAfter, "result of the operation"));
+    VF_CHECK(viewsAfter == viewsBefore, "the typed accessors of the result read differently from the source's");
     if (c.op <= 1)
     {
         VF_CHECK(psnap(src) == before, "copying a payload changed the source");
         VF_CHECK(*res == src && src == *res, "a payload copy does not compare equal to its original");
         res->setRawPayloadType(static_cast<uint8_t>(res->getRawPayloadType() ^ 1));
         VF_CHECK(psnap(src) == before, "mutating a payload copy changed the source");
+        res->setRawPayloadType(static_cast<uint8_t>(res->getRawPayloadType() ^ 1));
         auto copySnap = psnap(*res);
+        // the source takes other content of another size, then goes away: the copy must not notice
+        if (src.getLength() > 0)
+            src = dstInit;
+        VF_TRY(typedViews(pcCls, *res, viewsAfter, "copy after the source was overwritten"));
+        VF_CHECK(viewsAfter == viewsBefore, "overwriting the source changed what the typed accessors of the copy read");
         srcPtr.reset();
         VF_CHECK(psnap(*res) == copySnap, "destroying the source changed the payload copy");
+        VF_TRY(typedViews(pcCls, *res, viewsAfter, "copy after the source was destroyed"));
+        VF_CHECK(viewsAfter == viewsBefore, "destroying the source changed what the typed accessors of the copy read");
     }
     else
     {
         srcPtr.reset();
         VF_CHECK(psnap(*res) == before, "destroying the moved-from payload changed the result");
+        VF_TRY(typedViews(pcCls, *res, viewsAfter, "result after the moved-from source was destroyed"));
+        VF_CHECK(viewsAfter == viewsBefore, "destroying the moved-from source changed what the typed accessors of the result read");
     }
     info.tag(c.domain == 1 ? "asam_payload" : c.domain == 2 ? "tecmp_payload" : c.domain == 3 ? "asam_typed_payload_class" : "tecmp_typed_payload_class");
     info.nontrivial = true;
@@ -467,20 +507,20 @@ static Verdict runCase(const Case& c, Info& info)
         switch (c.src.r.kind % 7)
         {
             case 0:
-                return runPayload<lib::CanPayload>(c, info, makeTyped<lib::CanPayload>(rkCan, c.src), makeTyped<lib::CanPayload>(rkCan, c.dst));
+                return runPayload<lib::CanPayload>(c, info, makeTyped<lib::CanPayload>(rkCan, c.src), makeTyped<lib::CanPayload>(rkCan, c.dst), pcCan);
             case 1:
-                return runPayload<lib::CanFdPayload>(c, info, makeTyped<lib::CanFdPayload>(rkCanFd, c.src), makeTyped<lib::CanFdPayload>(rkCanFd, c.dst));
+                return runPayload<lib::CanFdPayload>(c, info, makeTyped<lib::CanFdPayload>(rkCanFd, c.src), makeTyped<lib::CanFdPayload>(rkCanFd, c.dst), pcCanFd);
             case 2:
-                return runPayload<lib::LinPayload>(c, info, makeTyped<lib::LinPayload>(rkLin, c.src), makeTyped<lib::LinPayload>(rkLin, c.dst));
+                return runPayload<lib::LinPayload>(c, info, makeTyped<lib::LinPayload>(rkLin, c.src), makeTyped<lib::LinPayload>(rkLin, c.dst), pcLin);
             case 3:
-                return runPayload<lib::EthernetPayload>(c, info, makeTyped<lib::EthernetPayload>(rkEthernet, c.src), makeTyped<lib::EthernetPayload>(rkEthernet, c.dst));
+                return runPayload<lib::EthernetPayload>(c, info, makeTyped<lib::EthernetPayload>(rkEthernet, c.src), makeTyped<lib::EthernetPayload>(rkEthernet, c.dst), pcEthernet);
             case 4:
-                return runPayload<lib::AnalogPayload>(c, info, makeTyped<lib::AnalogPayload>(rkAnalog, c.src), makeTyped<lib::AnalogPayload>(rkAnalog, c.dst));
+                return runPayload<lib::AnalogPayload>(c, info, makeTyped<lib::AnalogPayload>(rkAnalog, c.src), makeTyped<lib::AnalogPayload>(rkAnalog, c.dst), pcAnalog);
             case 5:
                 return runPayload<lib::CaptureModulePayload>(c, info, makeTyped<lib::CaptureModulePayload>(rkCmStatus, c.src),
-                                                             makeTyped<lib::CaptureModulePayload>(rkCmStatus, c.dst));
+                                                             makeTyped<lib::CaptureModulePayload>(rkCmStatus, c.dst), pcCm);
             default:
-                return runPayload<lib::InterfacePayload>(c, info, makeTyped<lib::InterfacePayload>(rkIfStatus, c.src), makeTyped<lib::InterfacePayload>(rkIfStatus, c.dst));
+                return runPayload<lib::InterfacePayload>(c, info, makeTyped<lib::InterfacePayload>(rkIfStatus, c.src), makeTyped<lib::InterfacePayload>(rkIfStatus, c.dst), pcIf);
         }
     }
     if (c.domain == 4)
